@@ -13,6 +13,15 @@ NAN = float('nan')
 INF = float('inf')
 KINDS = ('KMixed', 'KFloat', 'KInt')
 
+# Behaviour of the UNCHANGED implementation that the property does not allow (reported, undecided): kept out of the
+# default stream.  True adds (a) MixedColumn keys holding several NaN objects (split yields one NaN part per NaN
+# object), (b) a by-/split-column known under two names (dm.B = dm.A: col.name is a list).
+INCLUDE_PENDING_FINDINGS = False
+
+
+class HarnessInputError(Exception):
+    """the input description itself is malformed: a defect of the generator, never an observation"""
+
 
 def coltype(kind):
     from datamatrix import MixedColumn, FloatColumn, IntColumn
@@ -80,40 +89,54 @@ def snapshot(dm):
               c._datamatrix is dm) for n, c in dm.columns])
 
 
-def build(inp):
-    """The source DataMatrix: base columns, then the row-order steps."""
+def build(inp, trace=None):
+    """The source DataMatrix: base columns, then the row-order steps, then the in-place history.  `trace` receives
+    the name of every implementation step before it is executed, so that an exception can be attributed."""
     from datamatrix import DataMatrix, operations as ops
+    trace = [] if trace is None else trace
     cols = inp['cols']
     n = len(cols[0]['cells']) if cols else 0
+    trace.append('DataMatrix(length=%d)' % n)
     dm = DataMatrix(length=n)
     for c in cols:
+        trace.append('column %s = %s' % (c['name'], c['kind']))
         dm[c['name']] = coltype(c['kind'])
         if n:
             dm[c['name']] = [pyobs.dec(x) for x in c['cells']]
-    for st in inp.get('order', []):
+    for new, old in inp.get('alias', []):
+        trace.append('dm.%s = dm.%s' % (new, old))
+        dm[new] = dm[old]
+    for i, st in enumerate(inp.get('order', [])):
+        trace.append('order[%d] %s' % (i, st['t']))
         if st['t'] == 'select':
             # dm[[]] means "no columns"; an empty row selection is written as a slice
             dm = dm[list(st['keep'])] if st['keep'] else dm[0:0]
+        elif st['t'] == 'slice':
+            dm = dm[st['a']:st['b']]
         elif st['t'] == 'shuffle':
             state = _random.getstate()
-            _random.seed(st['seed'])
-            dm = ops.shuffle(dm)
-            _random.setstate(state)
+            try:
+                _random.seed(st['seed'])
+                dm = ops.shuffle(dm)
+            finally:
+                _random.setstate(state)
         elif st['t'] == 'sort':
             dm = ops.sort(dm, by=dm[st['by']])
         else:
-            raise AssertionError(st)
-    apply_history(dm, inp.get('hist', []))
+            raise HarnessInputError(st)
+    apply_history(dm, inp.get('hist', []), trace)
     return dm
 
 
-def apply_history(dm, hist):
+def apply_history(dm, hist, trace=None):
     """In-place history on the table that is split / grouped afterwards: probes (split / unique / count, results
     discarded) and mutations (dm.length, cell / slice / selection / Row assignment).  The source is read AFTER
     the history, so the oracle judges the final operation against the table as it stands then."""
     from datamatrix import operations as ops
-    for st in hist:
+    trace = [] if trace is None else trace
+    for i, st in enumerate(hist):
         t = st['t']
+        trace.append('hist[%d] %s' % (i, t if t != 'probe' else 'probe-' + st['what']))
         if t == 'probe':
             col = dm[st['col']]
             if st['what'] == 'split':
@@ -125,7 +148,7 @@ def apply_history(dm, hist):
             elif st['what'] == 'group':
                 ops.group(dm, by=[col])
             else:
-                raise AssertionError(st)
+                raise HarnessInputError(st)
         elif t == 'length':
             dm.length = max(0, len(dm) + st['delta'])
             if 'uid' in dm and len(dm):
@@ -141,7 +164,22 @@ def apply_history(dm, hist):
             row = dm[st['i']]
             row[st['col']] = pyobs.dec(st['v'])
         else:
-            raise AssertionError(st)
+            raise HarnessInputError(st)
+
+
+def rid_shape(rid):
+    """class of the row-id layout of the source (input-distribution histogram)"""
+    n = len(rid)
+    if n < 2:
+        return 'rid:trivial'
+    lo, hi = min(rid), max(rid)
+    contig = hi - lo == n - 1 and len(set(rid)) == n
+    if rid == sorted(rid):
+        return 'rid:identity' if rid == list(range(n)) else ('rid:ascending-offset' if contig else 'rid:ascending-gapped')
+    ends = rid[0] == lo and rid[-1] == hi
+    span = rid[-1] - rid[0] == n - 1
+    return 'rid:permuted-%s%s%s' % ('contiguous' if contig else 'gapped', '-min-first-max-last' if ends else '',
+                                    '-endspan' if span and not (contig and ends) else '')
 
 
 class C14:
@@ -163,18 +201,29 @@ class C14:
             'malformed stream (mixed column/value arguments, by-column of another DataMatrix -> ValueError); '
             'histories on one table: split/unique/count/group first, then dm.length grow/shrink, cell / slice / '
             'selection / Row assignment (in place), then the operation, judged against the table as read after '
-            'the history. '
+            'the history; row-id layouts (tables of 4-12 rows with Int/Float key and payload columns next to Mixed '
+            'ones, the uid stored three times: Mixed, Float, Int): 13 derivation routes -- index lists with the '
+            'smallest id first, the largest last and the interior permuted (random and hand-written, also after an '
+            'offset slice, applied twice, after a probe), sort by a rank / key column whose minimum and maximum are '
+            'already in place, shuffles filtered for that shape, rotations, reversal, swapped ends, gapped lists '
+            'with and without last-first = length-1; key combinations whose Python hashes coincide (-1/-2, '
+            '0/2**61-1, inf/314159). '
+            'Every implementation call of a case (construction, derivation, history, reading the source, the '
+            'call, consuming the generator, reading every part / group, the after-snapshot) runs inside one '
+            'guard: an exception is an observation of that case (pyfail naming the step), judged against the '
+            'spec (split / group of every generated input succeed) and shrunk like any other failure. '
             'Observed: every yielded value and every cell of every part / of the grouped table, and a full '
             'before/after snapshot of the source (cells, row ids, column objects). non-trivial = at least two '
             'parts/groups; distinct by (operation, kinds, key cells, order steps, values)')
     trusted_base = [
         'Coq 8.16.1 kernel (coqc; vm_compute for evaluating cases; no native_compute)',
         'translator /verif/translate/gen_splitgroup.py (ast -> Gen/KSplitGroup.v) incl. its pinned fragments of '
-        'operations.split/group, BaseColumn._compare/_compare_value/_compare_nan/unique, '
-        'NumericColumn._compare_value/unique',
+        'operations.split/group, BaseColumn._compare/_compare_value/_compare_nan/unique/_getrowidkey, '
+        'NumericColumn._compare_value/unique/_getrowidkey, DataMatrix._selectrowid',
         'harness/c14.py runner (reads parts/groups cell by cell, snapshot of the source) + Run/SC14.v, Run/RC14.v',
         'modelled, not verified: Python ==, hash/dict/set/tuple semantics, sorted(), numpy.unique / == / where / '
-        'fancy indexing, DataMatrix._selectrowid/_getrowidkey (tied by correspondence), float(int) as round53',
+        'fancy indexing, argsort + searchsorted / Index.index as position lookup of a row id (bodies pinned, tied by '
+        'correspondence on 13 row-id layouts), float(int) as round53',
     ]
     assumptions = [
         'cells are normal forms of their column type (C05); MixedColumn keys do not contain NaN (property '
@@ -183,6 +232,9 @@ class C14:
         'source are outside the claim',
         'explicit split values: any int/str/None/float for Mixed keys, numbers for Float keys, integers and '
         'non-numeric objects for Int keys (coercions of other references belong to C02)',
+        'group refinement theorem (C14_model_group_refines): premise wf_group_b (distinct row ids, columns as long '
+        'as the id list, >= 1 column unless no rows, distinct column names, no by-cell is the literal text nan) is '
+        'evaluated on every dumped source as part of the model obligation',
         'the order of groups is compared as a set by the oracle (documented as unpredictable) and exactly by the '
         'model tie; the order of `unique` on a Mixed column that mixes a non-integral float with text/None, or '
         'holds both None and the string None, is not part of the oracle',
@@ -196,47 +248,93 @@ class C14:
             warnings.simplefilter('ignore')
             return self._rerun(inp)
 
+    @staticmethod
+    def _validate(inp):
+        if inp.get('op') not in ('split', 'splitv', 'group', 'bad_split', 'bad_group'):
+            raise HarnessInputError('unknown operation %r' % (inp.get('op'),))
+        names = [c['name'] for c in inp['cols']] + [a[0] for a in inp.get('alias', [])]
+        for k in inp['keys']:
+            if k not in names:
+                raise HarnessInputError('key column %r is not a column of the input' % (k,))
+        if inp['op'] in ('split', 'splitv', 'bad_split') and not inp['keys']:
+            raise HarnessInputError('split needs a key column')
+        for st in inp.get('order', []):
+            if st.get('t') not in ('select', 'slice', 'shuffle', 'sort'):
+                raise HarnessInputError(st)
+
     def _rerun(self, inp):
+        """Every call into the implementation (construction, derivation steps, history, reading the source, the
+        operation itself, consuming the generator, reading every part / the grouped table, the after-snapshot) runs
+        inside one guard: an exception there is an OBSERVATION of this case (`pyfail`; the L0 spec says that split /
+        group of every generated input succeed, the malformed stream expects ValueError from the call alone), never a
+        crash of the harness.  Only a malformed input description (HarnessInputError) escapes."""
+        self._validate(inp)
+        st = {'stage': 'building the source', 'trace': [], 'src': None, 'rid': None, 'tags': [], 'nparts': 0}
+        try:
+            return self._run(inp, st)
+        except HarnessInputError:
+            raise
+        except Exception as e:      # noqa: BLE001
+            where = st['stage'] + ((' (' + st['trace'][-1] + ')') if st['trace'] and st['stage'].startswith('building') else '')
+            expect = {'bad_split': 'split(col, col, value) raises ValueError from the call itself',
+                      'bad_group': 'group by a column of another DataMatrix raises ValueError from the call itself'
+                      }.get(inp['op'], '%s of this input succeeds' % ('group' if inp['op'] == 'group' else 'split'))
+            return self._result(inp, st, oracle='true', model='true',
+                              observed={'raised': pyobs.exn_name(e), 'while': where, 'message': str(e)[:200]},
+                              problems=['%s raised %s: %s -- the property says that %s' % (
+                                  where, type(e).__name__, str(e)[:120], expect)],
+                              extra_tags=['raised:' + st['stage'].split(' ')[0]])
+
+    def _result(self, inp, st, oracle, model, observed, problems, extra_tags=()):
+        op = inp['op']
+        return {
+            'input': inp,
+            'observed': {'source': view_json(st['src']) if st['src'] is not None else None, 'rowid': st['rid'],
+                         'result': observed},
+            'pyfail': '; '.join(problems[:3]) if problems else None,
+            'oracle': oracle, 'model': model,
+            'nontrivial': st['nparts'] >= 2,
+            'sig': json.dumps([op, inp['keys'], inp['cols'], inp.get('order'), inp.get('values'), inp.get('by_form'),
+                               inp.get('hist'), inp.get('alias')],
+                              sort_keys=True),
+            'tags': st['tags'] + list(extra_tags),
+        }
+
+    def _run(self, inp, st):
         from datamatrix import DataMatrix, operations as ops
         from datamatrix._datamatrix._seriescolumn import _SeriesColumn
         problems = Problems()
-        dm = build(inp)
-        src = view(dm, problems)
-        rid = [int(r) for r in dm._rowid]
-        before = snapshot(dm)
         op = inp['op']
-        src_l = view_lit(src, problems)
-        rid_l = L.lst(L.N(r) for r in rid)
-        names_l = L.lst(L.string(k) for k in inp['keys'])
-        tags = list(inp.get('tags', [])) + [op, 'n=%d' % len(dm)] + ['order:' + ('+'.join(s['t'] for s in inp.get('order', [])) or 'none')]
+        tags = st['tags']
+        tags.extend(list(inp.get('tags', [])) + [op])
+        tags.append('order:' + ('+'.join(s['t'] for s in inp.get('order', [])) or 'none'))
         if inp.get('hist'):
             tags.append('hist:' + '+'.join(h['t'] if h['t'] != 'probe' else 'probe-' + h['what'] for h in inp['hist']))
+        kinds_present = set(c['kind'] for c in inp['cols'])
         for k in inp['keys']:
             kk = [c for c in inp['cols'] if c['name'] == k]
             tags.append('key:' + (kk[0]['kind'] if kk else '?'))
+        if 'KMixed' in kinds_present and len(kinds_present) > 1:
+            tags.append('cols:mixed+numeric')
+        dm = build(inp, st['trace'])
+        st['stage'] = 'reading the source'
+        src = view(dm, problems)
+        rid = [int(r) for r in dm._rowid]
+        st['src'], st['rid'] = src, rid
+        tags.extend(['n=%d' % len(dm), rid_shape(rid)])
+        before = snapshot(dm)
+        src_l = view_lit(src, problems)
+        rid_l = L.lst(L.N(r) for r in rid)
+        # a column known under several names is a by-column under each of them
+        alias = inp.get('alias', [])
+        bynames = list(inp['keys']) + [new for new, old in alias if old in inp['keys'] and new not in inp['keys']]
+        names_l = L.lst(L.string(k) for k in inp['keys'])
         oracle = model = 'true'
         observed = None
-        nparts = 0
-        if op in ('split', 'splitv', 'group'):
-            # a well-formed call must not raise: an exception is a finding, not a harness error
-            try:
-                if op == 'split':
-                    res = list(ops.split(*[dm[k] for k in inp['keys']]))
-                elif op == 'splitv':
-                    values = [pyobs.dec(v) for v in inp['values']]
-                    res = list(ops.split(dm[inp['keys'][0]], *values))
-                else:
-                    by = [dm[k] for k in inp['keys']]
-                    if inp.get('by_form') == 'none':
-                        by = None
-                    elif inp.get('by_form') == 'single' and len(by) == 1:
-                        by = by[0]
-                    res = ops.group(dm, by)
-            except Exception as e:      # noqa: BLE001
-                problems.append('%s raised %s: %s' % (op, type(e).__name__, str(e)[:120]))
-                observed = {'raised': pyobs.exn_name(e)}
-                op = 'raised'
         if op == 'split':
+            st['stage'] = 'split (call and consuming the generator)'
+            res = list(ops.split(*[dm[k] for k in inp['keys']]))
+            st['stage'] = 'reading the parts of split'
             obs = []
             for item in res:
                 if not isinstance(item, tuple) or len(item) != len(inp['keys']) + 1 \
@@ -244,27 +342,41 @@ class C14:
                     problems.append('split yielded %r, expected (value.., DataMatrix)' % (item,))
                     continue
                 obs.append(([plain(v) for v in item[:-1]], view(item[-1], problems)))
-            nparts = len(obs)
+            st['nparts'] = len(obs)
             obs_l = L.lst('(%s, %s)' % (L.lst(val_lit(v, problems) for v in vs), view_lit(pv, problems))
                           for vs, pv in obs)
             oracle = 'split_oracle %s %s %s' % (src_l, names_l, obs_l)
             model = 'split_model %s %s %s %s' % (rid_l, src_l, names_l, obs_l)
             observed = [[[jv(v) for v in vs], view_json(pv)] for vs, pv in obs]
         elif op == 'splitv':
+            st['stage'] = 'split with values (call and consuming the generator)'
+            values = [pyobs.dec(v) for v in inp['values']]
+            res = list(ops.split(dm[inp['keys'][0]], *values))
+            st['stage'] = 'reading the parts of split'
             obs = []
             for item in res:
                 if not isinstance(item, DataMatrix):
                     problems.append('split with values yielded %r, expected a DataMatrix' % (item,))
                     continue
                 obs.append(view(item, problems))
-            nparts = len([o for o in obs if o and o[0][2]])
+            st['nparts'] = len([o for o in obs if o and o[0][2]])
             vals_l = L.lst(val_lit(v, problems) for v in values)
             obs_l = L.lst(view_lit(pv, problems) for pv in obs)
             oracle = 'splitv_oracle %s %s %s %s' % (src_l, L.string(inp['keys'][0]), vals_l, obs_l)
             model = 'splitv_model %s %s %s %s %s' % (rid_l, src_l, L.string(inp['keys'][0]), vals_l, obs_l)
             observed = [view_json(pv) for pv in obs]
         elif op == 'group':
-            cm = res
+            st['stage'] = 'group (the call)'
+            by = [dm[k] for k in inp['keys']]
+            if inp.get('by_form') == 'none':
+                by = None
+            elif inp.get('by_form') == 'single' and len(by) == 1:
+                by = by[0]
+            cm = ops.group(dm, by)
+            st['stage'] = 'reading the grouped table'
+            if not isinstance(cm, DataMatrix):
+                problems.append('group returned %r, expected a DataMatrix' % (cm,))
+                cm = DataMatrix(length=0)
             bycols, sercols = [], []
             for name, _k, _c in src:
                 if name not in cm:
@@ -287,47 +399,39 @@ class C14:
             extra = [n for n in cm.column_names if n not in [s[0] for s in src]]
             if extra:
                 problems.append('grouped table has extra columns %r' % extra)
-            nparts = len(cm)
+            st['nparts'] = len(cm)
             obs_l = '{| g_n := %s; g_by := %s; g_series := %s |}' % (
                 L.nat(len(cm)), view_lit(bycols, problems),
                 L.lst('(%s, %s, %s)' % (L.string(n), L.nat(d), L.lst(L.lst(L.fl(x) for x in row) for row in rows))
                       for n, d, rows in sercols))
-            oracle = 'group_oracle %s %s %s' % (src_l, names_l, obs_l)
-            model = 'group_model %s %s %s %s' % (rid_l, src_l, names_l, obs_l)
+            bynames_l = L.lst(L.string(k) for k in bynames)
+            oracle = 'group_oracle %s %s %s' % (src_l, bynames_l, obs_l)
+            model = 'group_model %s %s %s %s' % (rid_l, src_l, bynames_l, obs_l)
             observed = {'n': len(cm), 'by': view_json(bycols),
                         'series': [[n, d, [[x.hex() for x in row] for row in rows]] for n, d, rows in sercols]}
         elif op == 'bad_split':
             # columns and values mixed: ValueError
+            st['stage'] = 'preparing split(col, col, value)'
             args = [dm[inp['keys'][0]], dm[inp['keys'][-1]], 'a']
             out = pyobs.outcome(lambda: list(ops.split(*args)))
             observed = list(out) if out[0] == 'exn' else ['ok']
             if out != ('exn', 'ValueError'):
                 problems.append('split(col, col, value) did not raise ValueError: %r' % (observed,))
         elif op == 'bad_group':
+            st['stage'] = 'preparing group by a foreign column'
             other = DataMatrix(length=len(dm))
             other.z = 0
             out = pyobs.outcome(lambda: ops.group(dm, by=[other.z]))
             observed = list(out) if out[0] == 'exn' else ['ok']
             if out != ('exn', 'ValueError'):
                 problems.append('group by a column of another DataMatrix did not raise ValueError: %r' % (observed,))
-        elif op == 'raised':
-            pass
         else:
-            raise AssertionError(op)
-        op = inp['op']
+            raise HarnessInputError(op)
+        st['stage'] = 'reading the source after the call'
         after = snapshot(dm)
         if after != before:
             problems.append('the source DataMatrix was modified by %s' % op)
-        return {
-            'input': inp, 'observed': {'source': view_json(src), 'rowid': rid, 'result': observed},
-            'pyfail': '; '.join(problems[:3]) if problems else None,
-            'oracle': oracle, 'model': model,
-            'nontrivial': nparts >= 2,
-            'sig': json.dumps([op, inp['keys'], inp['cols'], inp.get('order'), inp.get('values'), inp.get('by_form'),
-                               inp.get('hist')],
-                              sort_keys=True),
-            'tags': tags,
-        }
+        return self._result(inp, st, oracle, model, observed, problems)
 
     # ------------------------------------------------------------------ generator
     POOLS = {
@@ -351,6 +455,12 @@ class C14:
         (['mhet', 'text'], [(None, 'a'), ('None', 'a'), (1, 'a'), ('a', ''), ('', 'a')]),
         (['text', 'text', 'text'], [('a', 'b', 'c'), ('ab', '', 'c'), ('a', 'bc', ''), ('', 'ab', 'c'), ('a', 'b', 'c')]),
         (['int', 'float', 'mint'], [(1, 1.0, 1), (1, 1.0, 2), (2, 0.0, 1), (1, NAN, 1), (0, 2.0, 1)]),
+        # distinct combinations whose Python hashes coincide: hash(-1) == hash(-2), hash(0) == hash(2**61 - 1),
+        # hash(inf) == hash(314159), hash(-inf) == hash(-314159)
+        (['int', 'text'], [(-1, 'a'), (-2, 'a'), (-1, 'b'), (-2, 'b'), (1, 'a')]),
+        (['mint', 'int'], [(0, 1), (2 ** 61 - 1, 1), (-1, 1), (-2, 1), (0, 2)]),
+        (['float', 'int'], [(INF, 0), (314159.0, 0), (-INF, 0), (-314159.0, 0), (-1.0, 0), (-2.0, 0)]),
+        (['mnum'], [(-1,), (-2,), (INF,), (314159,), (0,), (2 ** 61 - 1,)]),
     ]
 
     def _payload(self, rng, n, numeric):
@@ -444,6 +554,177 @@ class C14:
                 inp['by_form'] = 'list'
         return inp
 
+    # ------------------------------------------------------------------ row-id layouts (derivation routes)
+    # index lists whose result has its smallest row id first and its largest last with the interior permuted
+    # (contiguous: 0..m-1; offset: a..b), written out by hand
+    HAND = [[0, 2, 1, 3], [0, 3, 1, 2, 4], [0, 2, 1, 3, 4, 5], [0, 1, 3, 2, 4], [0, 4, 2, 3, 1, 5], [0, 2, 4, 1, 3, 5],
+            [1, 3, 2, 4], [2, 4, 3, 5], [1, 4, 2, 3, 5], [0, 1, 2, 4, 3, 5, 6], [0, 5, 4, 3, 2, 1, 6]]
+    ROUTES = ['interior', 'hand', 'sort-rank', 'sort-key', 'shuffle-shaped', 'offset-interior', 'rotate', 'reverse',
+              'swap-ends', 'endspan-gapped', 'gapped-ends', 'double', 'interior+probe']
+
+    @staticmethod
+    def _interior_perm(rng, m):
+        """[0, <1..m-2 permuted, not the identity>, m-1]   (m >= 4)"""
+        mid = list(range(1, m - 1))
+        for _ in range(20):
+            rng.shuffle(mid)
+            if mid != list(range(1, m - 1)):
+                break
+        else:
+            mid.reverse()
+        return [0] + mid + [m - 1]
+
+    @staticmethod
+    def _shuffle_perm(seed, m):
+        """the permutation ops.shuffle applies under random.seed(seed): random.shuffle of a length-m sequence"""
+        r = _random.Random()
+        r.seed(seed)
+        l = list(range(m))
+        r.shuffle(l)
+        return l
+
+    def _route(self, rng, route, n, keycols):
+        """-> (order steps, rank cells (ints, one per base row), hist)   for a base table of n >= 4 rows"""
+        rank = list(range(n))
+        rng.shuffle(rank)
+        hist = []
+        if route == 'interior':
+            steps = [{'t': 'select', 'keep': self._interior_perm(rng, n)}]
+        elif route == 'hand':
+            fits = [h for h in self.HAND if max(h) < n]
+            steps = [{'t': 'select', 'keep': list(rng.choice(fits))}]
+        elif route == 'sort-rank':
+            # the rank column already has its minimum in the first and its maximum in the last row
+            target = self._interior_perm(rng, n)
+            rank = [0] * n
+            for pos, row in enumerate(target):
+                rank[row] = pos
+            steps = [{'t': 'sort', 'by': 'rk'}]
+        elif route == 'sort-key':
+            # a numeric key whose smallest value is in the first and whose largest is in the last row
+            kc = keycols[0]
+            pool = {'KInt': [1, 2, 3, 2, 1], 'KFloat': [1.0, 2.5, 2.0, 1.5], 'KMixed': [1, 2, 3, 2.5]}[kc['kind']]
+            cells = [0] + [rng.choice(pool) for _ in range(n - 2)] + [9]
+            if cells[1:-1] == sorted(cells[1:-1]):
+                cells[1], cells[-2] = max(pool), min(pool)
+            kc['cells'] = [pyobs.enc(float(c) if kc['kind'] == 'KFloat' else c) for c in cells]
+            steps = [{'t': 'sort', 'by': kc['name']}]
+        elif route == 'shuffle-shaped':
+            steps = None
+            for _ in range(600):
+                seed = rng.randint(0, 10 ** 6)
+                perm = self._shuffle_perm(seed, n)
+                if perm[0] == 0 and perm[-1] == n - 1 and perm != list(range(n)):
+                    steps = [{'t': 'shuffle', 'seed': seed}]
+                    break
+            if steps is None:
+                steps = [{'t': 'select', 'keep': self._interior_perm(rng, n)}]
+        elif route == 'offset-interior':
+            a = rng.randint(1, n - 4) if n > 4 else 0
+            b = rng.randint(a + 4, n)
+            steps = [{'t': 'slice', 'a': a, 'b': b}, {'t': 'select', 'keep': self._interior_perm(rng, b - a)}]
+        elif route == 'rotate':
+            k = rng.randint(1, n - 1)
+            steps = [{'t': 'select', 'keep': list(range(k, n)) + list(range(k))}]
+        elif route == 'reverse':
+            steps = [{'t': 'select', 'keep': list(range(n - 1, -1, -1))}]
+        elif route == 'swap-ends':
+            mid = list(range(1, n - 1))
+            if rng.random() < 0.5:
+                rng.shuffle(mid)
+            steps = [{'t': 'select', 'keep': [n - 1] + mid + [0]}]
+        elif route == 'endspan-gapped':
+            # last id - first id = length - 1 although the ids are not that range
+            m = rng.randint(3, n - 1)
+            f = rng.randint(0, n - m)
+            outside = [i for i in range(n) if i < f or i > f + m - 1]
+            inside = [i for i in range(f + 1, f + m - 1)]
+            k_out = rng.randint(1, min(len(outside), m - 2))
+            mid = rng.sample(outside, k_out) + rng.sample(inside, m - 2 - k_out)
+            rng.shuffle(mid)
+            steps = [{'t': 'select', 'keep': [f] + mid + [f + m - 1]}]
+        elif route == 'gapped-ends':
+            # gaps, smallest id first, largest last, interior permuted
+            m = rng.randint(4, max(4, n - 1))
+            keep = sorted(rng.sample(range(n), m))
+            mid = keep[1:-1]
+            while mid == keep[1:-1]:
+                rng.shuffle(mid)
+            steps = [{'t': 'select', 'keep': [keep[0]] + mid + [keep[-1]]}]
+        elif route == 'double':
+            steps = [{'t': 'select', 'keep': self._interior_perm(rng, n)},
+                     {'t': 'select', 'keep': self._interior_perm(rng, n)}]
+        elif route == 'interior+probe':
+            # the same layout, after the table has answered other questions first (caches populated)
+            steps = [{'t': 'select', 'keep': self._interior_perm(rng, n)}]
+            hist = [{'t': 'probe', 'what': rng.choice(['split', 'unique', 'count', 'group']), 'col': keycols[0]['name']}]
+        else:
+            raise HarnessInputError(route)
+        return steps, rank, hist
+
+    def _shaped_case(self, rng, op, maxn, route):
+        """tables of >= 4 (mostly >= 6) rows with numeric (Int / Float) key and payload columns next to Mixed ones,
+        reordered through `route`; small key alphabets so that parts / groups hold several rows"""
+        n = min(maxn, rng.choice([4, 5, 6, 6, 7, 8, 8, 9, 10, 12]))
+        if route == 'shuffle-shaped':
+            n = min(n, 7)
+        if route == 'endspan-gapped':
+            n = max(n, 5)
+        nk = 1 if op == 'splitv' else rng.choice([1, 1, 2])
+        flav = [rng.choice(['int', 'float', 'int', 'float', 'text', 'mint'])]
+        if nk == 2:
+            flav.append(rng.choice(['int', 'float', 'text', 'mhet'] if flav[0] in ('text', 'mint') else ['text', 'mint', 'int']))
+        if route == 'sort-key' and flav[0] == 'text':
+            flav[0] = 'int'
+        keycols = []
+        for j, f in enumerate(flav):
+            pool = rng.sample(self.POOLS[f][:5], rng.randint(2, 3))
+            keycols.append({'name': 'k%d' % j, 'kind': self.FLAVOUR_KIND[f],
+                            'cells': [pyobs.enc(rng.choice(pool)) for _ in range(n)]})
+        steps, rank, hist = self._route(rng, route, n, keycols)
+        uid = rng.sample(range(100), n)
+        rk_kind = rng.choice(['KFloat', 'KInt'])
+        cols = list(keycols)
+        if op != 'group':       # grouped columns must hold numbers: the text label only for split
+            cols.append({'name': 'lab', 'kind': 'KMixed', 'cells': [pyobs.enc('r%d' % i) for i in range(n)]})
+        cols += [{'name': 'um', 'kind': 'KMixed', 'cells': [pyobs.enc(u) for u in uid]},      # the uid in object storage
+                 {'name': 'rk', 'kind': rk_kind,
+                  'cells': [pyobs.enc(float(r) if rk_kind == 'KFloat' else r) for r in rank]},
+                 {'name': 'uf', 'kind': 'KFloat', 'cells': [pyobs.enc(u + 0.5) for u in uid]},  # ... in a float buffer
+                 {'name': 'uid', 'kind': 'KInt', 'cells': [pyobs.enc(u) for u in uid]}]        # ... in an int buffer
+        inp = {'op': op, 'cols': cols, 'keys': [c['name'] for c in keycols], 'order': steps,
+               'tags': ['layout', 'route:' + route]}
+        if hist:
+            inp['hist'] = hist
+        if op == 'splitv':
+            inp['values'] = self._values(rng, keycols[0])
+        if op == 'group':
+            inp['by_form'] = 'list' if len(keycols) > 1 else rng.choice(['single', 'list'])
+        return inp
+
+    def _pending_cases(self, rng):
+        """behaviour of the unchanged tree that the property does not allow (see INCLUDE_PENDING_FINDINGS)"""
+        out = []
+        # (a) several NaN objects in a MixedColumn key
+        for cells in ([NAN, 'a', NAN, 'a'], [NAN, NAN], [1, NAN, 'b', NAN, NAN, 1]):
+            cols = [{'name': 'k0', 'kind': 'KMixed', 'cells': [pyobs.enc(v) for v in cells]},
+                    {'name': 'uid', 'kind': 'KInt', 'cells': [pyobs.enc(10 + i) for i in range(len(cells))]}]
+            out.append({'op': 'split', 'cols': cols, 'keys': ['k0'], 'order': [], 'tags': ['pending:mixed-nan']})
+            out.append({'op': 'group', 'cols': cols, 'keys': ['k0'], 'order': [], 'by_form': 'list',
+                        'tags': ['pending:mixed-nan']})
+        # (b) the by-/split-column is known under two names
+        for kind, cells in (('KMixed', ['x', 'y', 'x', 'y']), ('KInt', [1, 2, 1, 2])):
+            cols = [{'name': 'A', 'kind': kind, 'cells': [pyobs.enc(v) for v in cells]},
+                    {'name': 'C', 'kind': 'KInt', 'cells': [pyobs.enc(v) for v in [1, 1, 2, 2]]},
+                    {'name': 'uid', 'kind': 'KInt', 'cells': [pyobs.enc(10 + i) for i in range(4)]}]
+            for keys in (['C', 'A'], ['A', 'C']):
+                out.append({'op': 'split', 'cols': cols, 'keys': keys, 'order': [], 'alias': [['B', 'A']],
+                            'tags': ['pending:alias']})
+            for form in ('single', 'list'):
+                out.append({'op': 'group', 'cols': cols, 'keys': ['A'], 'order': [], 'alias': [['B', 'A']],
+                            'by_form': form, 'tags': ['pending:alias']})
+        return out
+
     def _hist_case(self, rng, op, maxn):
         """split / unique / count first, then mutate the same table in place, then the operation"""
         inp = self._case(rng, op, maxn)
@@ -533,6 +814,14 @@ class C14:
         for _ in range(reps):
             for op in ('split', 'splitv', 'group'):
                 cases.append(self.rerun(self._case(rng, op, maxn)))
+        # row-id layouts: every derivation route, every operation
+        for _ in range(max(1, int((8 if quick else 60) * scale))):
+            for route in self.ROUTES:
+                for op in ('split', 'splitv', 'group'):
+                    cases.append(self.rerun(self._shaped_case(rng, op, maxn, route)))
+        if INCLUDE_PENDING_FINDINGS:
+            for inp in self._pending_cases(rng):
+                cases.append(self.rerun(inp))
         # histories: probe (split / unique / count), mutate the same table in place, then the operation
         for _ in range(int((110 if quick else 1200) * scale)):
             for op in ('split', 'split', 'splitv', 'group'):
@@ -549,6 +838,17 @@ class C14:
         return self.generate(rng, 'quick', scale=3.0)
 
     # ------------------------------------------------------------------ shrinking
+    @staticmethod
+    def _final_rowids(inp):
+        """row ids of the source after the derivation steps (implementation call: guarded)"""
+        try:
+            with warnings.catch_warnings():
+                warnings.simplefilter('ignore')
+                dm = build(dict(inp, hist=[]))
+                return [int(r) for r in dm._rowid]
+        except Exception:       # noqa: BLE001
+            return None
+
     def shrink_candidates(self, inp):
         cols = inp['cols']
         n = len(cols[0]['cells']) if cols else 0
@@ -562,6 +862,15 @@ class C14:
             c = dict(inp)
             c['order'] = inp['order'][:i] + inp['order'][i + 1:]
             yield c
+        # replace the derivation chain by the one index list that yields the same row ids (the base table's row
+        # ids are its positions); afterwards base rows can be dropped
+        order = inp.get('order', [])
+        if order and not (len(order) == 1 and order[0]['t'] == 'select'):
+            rid = self._final_rowids(inp)
+            if rid is not None and len(set(rid)) == len(rid) and all(0 <= r < n for r in rid):
+                c = dict(inp)
+                c['order'] = [{'t': 'select', 'keep': rid}]
+                yield c
         # drop a base row (select steps are re-indexed)
         for r in range(n):
             c = dict(inp)
@@ -572,7 +881,7 @@ class C14:
                     order.append({'t': 'select', 'keep': [k - (k > r) for k in st['keep'] if k != r]})
                 else:
                     order.append(st)
-            if any(st['t'] == 'select' for st in order[1:]):
+            if any(st['t'] == 'select' for st in order[1:]) or any(st['t'] == 'slice' for st in order):
                 continue
             c['order'] = order
             yield c
